@@ -58,6 +58,58 @@ impl Clock {
     }
 }
 
+/// The two injected sources and the environment under which operations run (Stopwatch.tla: amb, thr).
+struct Env {
+    a: Clock,
+    b: Clock,
+    /// thread-local override for the following operations: 0 none, 1 source A, 2 source B
+    amb: u8,
+    /// run the following operations on another thread (which installs `amb` as its own override)
+    other: bool,
+}
+
+impl Env {
+    fn new(tick_ns: u64, w0: u64, w0b: u64) -> Self {
+        Env { a: Clock::new(tick_ns, w0), b: Clock::new(tick_ns, w0b), amb: 1, other: false }
+    }
+    fn ambient_source(&self) -> Option<TimeSource> {
+        match self.amb {
+            1 => Some(self.a.source()),
+            2 => Some(self.b.source()),
+            _ => None,
+        }
+    }
+    /// Run one operation of the code under test under the current ambient override / thread.
+    fn under<R: Send, F: FnOnce() -> R + Send>(&self, f: F) -> R {
+        let amb = self.ambient_source();
+        let body = move || {
+            let _guard = amb.map(set_time_source);
+            f()
+        };
+        if self.other {
+            std::thread::scope(|s| match s.spawn(body).join() {
+                Ok(r) => r,
+                Err(p) => std::panic::resume_unwind(p),
+            })
+        } else {
+            body()
+        }
+    }
+    fn set(&mut self, amb: u64, other: bool, st: &mut Stats) {
+        self.amb = amb as u8;
+        self.other = other;
+        if other {
+            st.hit("env_other_thread");
+        }
+        if amb == 2 {
+            st.hit("env_override_b");
+        }
+        if amb == 0 {
+            st.hit("env_no_override");
+        }
+    }
+}
+
 #[derive(Default)]
 struct Stats {
     behaviours: u64,
